@@ -115,6 +115,8 @@ func (ctx *Ctx) Set(key string, val any, ins inspector.Inspector) *Ctx {
 			// Update existing variable.
 			ctx.vars[i].val = val
 			ctx.vars[i].ins = ins
+			ctx.vars[i].buf = ctx.vars[i].buf[:0]
+			ctx.vars[i].cntrF = false
 			return ctx
 		}
 	}
@@ -124,6 +126,8 @@ func (ctx *Ctx) Set(key string, val any, ins inspector.Inspector) *Ctx {
 		ctx.vars[ctx.ln].key = key
 		ctx.vars[ctx.ln].val = val
 		ctx.vars[ctx.ln].ins = ins
+		ctx.vars[ctx.ln].buf = ctx.vars[ctx.ln].buf[:0]
+		ctx.vars[ctx.ln].cntrF = false
 	} else {
 		// Extend the variable list with new one.
 		ctx.vars = append(ctx.vars, ctxVar{
@@ -162,6 +166,8 @@ func (ctx *Ctx) SetBytes(key string, val []byte) *Ctx {
 		if ctx.vars[i].key == key {
 			ctx.vars[i].buf = append(ctx.vars[i].buf[:0], val...)
 			ctx.vars[i].ins = ins
+			ctx.vars[i].val = nil
+			ctx.vars[i].cntrF = false
 			return ctx
 		}
 	}
@@ -169,6 +175,8 @@ func (ctx *Ctx) SetBytes(key string, val []byte) *Ctx {
 		ctx.vars[ctx.ln].key = key
 		ctx.vars[ctx.ln].buf = append(ctx.vars[ctx.ln].buf[:0], val...)
 		ctx.vars[ctx.ln].ins = ins
+		ctx.vars[ctx.ln].val = nil
+		ctx.vars[ctx.ln].cntrF = false
 	} else {
 		v := ctxVar{
 			key: key,
